@@ -294,7 +294,7 @@ func runC04(ctx *Ctx, c c04Case) {
 
 // a process without out-ports drives the workflow while its upstream also feeds an out-port that only the sink
 // consumes: every input set reaches the driver only if the sink drains that port while the driver runs
-func sinkDrains(ctx *Ctx, items, buf int) {
+func sinkDrains(ctx *Ctx, items, buf int, runTo bool) {
 	paths := []string{}
 	pre := map[string]string{}
 	for i := 0; i < items; i++ {
@@ -306,13 +306,23 @@ func sinkDrains(ctx *Ctx, items, buf int) {
 		{Name: "gen", Kind: "proc", Cmd: "( cat {i:in} > {o:a} ; cat {i:in} > {o:b} )", Outs: map[string]string{"a": "{i:in}.a", "b": "{i:in}.b"}},
 		{Name: "report", Kind: "proc", Cmd: "( cat {i:in} >> ../report.log )"}},
 		Edges: []Edge{{From: "src.out", To: "gen.in"}, {From: "gen.a", To: "report.in"}}}
+	if runTo {
+		d.RunTo, d.RunToKind = []string{"report"}, "name" // a partial run whose final process has no out-ports
+	}
 	rr := RunWorkflow(d, RunOpts{Pre: pre, Timeout: 20e9, Env: []string{fmt.Sprintf("SCIPIPE_BUFSIZE=%d", buf)}})
 	defer os.RemoveAll(rr.Dir)
-	w := [2]int{items, buf}
-	ctx.Res.Eval(fmt.Sprintf("sink-drains items=%d bufsize=%d", items, buf), true, w)
+	w := []interface{}{items, buf, runTo}
+	ctx.Res.Eval(fmt.Sprintf("sink-drains items=%d bufsize=%d runto=%v", items, buf, runTo), true, w)
 	ctx.Res.Count("driver-without-out-ports+sink")
 	got, _ := readFile(rr.Dir, "report.log")
 	n := strings.Count(got, "\n")
+	seen := map[string]int{}
+	for _, l := range strings.Split(strings.TrimSpace(got), "\n") {
+		seen[l]++
+	}
+	if rr.Exit == 0 && n == items && len(seen) != items {
+		ctx.Res.Violate(Violation{What: fmt.Sprintf("the driver processed %d input sets of which only %d are distinct (%d items sent): a set was processed twice, another not at all", n, len(seen), items), Class: "c04.duplicate", Witness: w})
+	}
 	if rr.Exit != 0 || n != items {
 		ctx.Res.Violate(Violation{What: fmt.Sprintf("a driver without out-ports processed %d of %d input sets while its upstream also feeds the sink (SCIPIPE_BUFSIZE=%d, exit %d): %s", n, items, buf, rr.Exit, firstLine(rr.Stderr)), Class: "c04.sink-drain", Witness: w})
 	}
@@ -336,8 +346,10 @@ func checkC04(ctx *Ctx) {
 			cases = append(cases, c04Case{Dag: genBalancedDag(r, true, 7), Buf: []int{1, 2, 3, 128}[r.Intn(4)]})
 		}
 	}
-	sinkDrains(ctx, 12, 1)
-	sinkDrains(ctx, 9, 2)
+	sinkDrains(ctx, 12, 1, false)
+	sinkDrains(ctx, 9, 2, false)
+	sinkDrains(ctx, 12, 2, true)
+	sinkDrains(ctx, 8, 128, true)
 	parallel(len(cases), 8, func(i int) {
 		if ctx.TimeLeft() {
 			runC04(ctx, cases[i])
